@@ -22,6 +22,7 @@ RULES = [
     Rule('C13.R3', 'copy-out frame count and destination offset have the required form; helpers write at i*sampleOffset', 8),
     Rule('C13.R4', 'format dispatch: container size == destination element size, selected converter applied, unsupported refused, converter ranges', 20),
     Rule('C13.R5', 'returned count equals the accumulated copied samples', 2),
+    Rule('C13.R7', 'every chip wrapper fills its whole block on every path of nativeGenerateN (the buffered base copies the block out unconditionally)', 3),
     Rule('C13.R6', 'frames generated and copied per period never exceed the frames left in the request', 4),
 ]
 EXPLANATION = ('CFG dominance for the argument screening, interval abstract interpretation (E2) for the period clamp and the converter value ranges, and AST '
@@ -374,8 +375,90 @@ def analyse(facts, tier):
     obls.append(Obl('C13.R4', sf.name, 'down-scaling rounds toward zero (odd symmetry)', sf.loc, 'discharged' if bad is None else 'finding',
                     why='opn2_cvtS8(-x) == -opn2_cvtS8(x) on representatives of every rounding class' if bad is None else
                     'opn2_cvtS8(%d) = %s but opn2_cvtS8(%d) = %s: negative samples are rounded the other way, quiet material is no longer rendered as silence on its negative half-waves (S8 -1 / U8 127 instead of 0 / 128)' % (bad[0], bad[1], -bad[0], bad[2])))
+    # the floating formats are the unsaturated signal divided by 32767: opn2_cvtReal is linear in its argument - its return value is
+    # the parameter (converted) times / divided by a constant, with no call, clamp or conditional in between
+    for cf in facts.fns.get('opn2_cvtReal', []):
+        if cf.tree is None:
+            continue
+        par = cf.params[0]['id']
+        rets = [st['s'].get('e') for b, j, st in cf.cfg.returns()]
+        bad = None
+        if len(rets) != 1:
+            bad = 'more than one return'
+        else:
+            e = strip(rets[0])
+            if e.get('k') != 'BinaryOperator' or e.get('op') not in ('*', '/'):
+                bad = 'the result is not a product / quotient'
+            else:
+                leaf = strip(e['l'])
+                while leaf is not None and (leaf.get('k') or '').endswith('CastExpr'):
+                    leaf = strip(leaf.get('e'))
+                if leaf is None or leaf.get('id') != par:
+                    bad = 'the scaled value is %s, not the sample itself' % show(e['l'])[:40]
+                if any(isinstance(y, dict) and (y.get('k') == 'ConditionalOperator' or ('callee' in y and not y.get('ctor'))) for y in walk(e['l'])):
+                    bad = 'the sample passes through %s before it is scaled' % show(e['l'])[:40]
+                fcv = strip(e['r']).get('fc') if isinstance(strip(e['r']), dict) else None
+                if fcv is None:
+                    fcv = const_of(e['r'])
+                want = (1.0 / 32767.0) if e.get('op') == '*' else 32767.0
+                if not bad and (fcv is None or abs(fcv - want) > 1e-6 * want):
+                    bad = 'the scale constant is %s, not %s' % (fcv, '1/32767' if e.get('op') == '*' else '32767')
+        obls.append(Obl('C13.R4', cf.name, 'float = sample / 32767, unsaturated', cf.loc, 'discharged' if bad is None else 'finding',
+                        why='returns x * (1 / 32767)' if bad is None else bad + ': the floating formats are no longer the unsaturated signal (material above full scale is flattened to +-1.0)'))
+        break
     obls += r6(facts)
+    obls += r7_block_filled(facts)
     return obls
+
+
+def r7_block_filled(facts):
+    """OPNChipBaseBufferedT::nativeGenerate asks the wrapper for a block (nativeGenerateN(m_buffer, n)) and then hands the samples of
+    m_buffer out one by one; the buffer is not initialised by the base.  Whatever the state of the wrapper, every return of
+    nativeGenerateN must be dominated by a statement that hands `output` to a call or stores through it: a return in front of it
+    makes uninitialised heap memory the audio of that chip."""
+    out = []
+    n = 0
+    for fn in facts.all_fns():
+        if short(fn.name) != 'nativeGenerateN' or fn.tree is None or not fn.relfile().startswith('src/chips/'):
+            continue
+        if not fn.params:
+            continue
+        par = fn.params[0]['id']
+        writers = []
+        for b, j, st in fn.cfg.stmts():
+            hit = False
+            for x in walk(st['s']):
+                if isinstance(x, dict) and 'callee' in x and any(isinstance(y, dict) and y.get('id') == par for a in x.get('a', []) for y in walk(a)):
+                    hit = True
+                ap = assign_parts(x) if isinstance(x, dict) else None
+                if ap and any(isinstance(y, dict) and y.get('id') == par for y in walk(ap[0])) and strip(ap[0]).get('k') in ('ArraySubscriptExpr', 'UnaryOperator'):
+                    hit = True
+            if hit:
+                writers.append((b, j))
+        exits = [(b, j, st) for b, j, st in fn.cfg.returns()]
+        # the fall-through end: the blocks that lead to the exit block
+        ends = [i for i, blk in fn.cfg.blocks.items() if fn.cfg.exit in [x for x in blk['succ'] if x is not None] and i != fn.cfg.exit]
+        n += 1
+        bad = None
+        # a per-sample loop `for(i = 0; i < k * frames; ++i) output[i] = ..` fills the block although its body does not dominate the
+        # exit (the zero-trip path writes nothing because nothing was asked for): its header counts as the writer
+        fpar = fn.params[1]['id'] if len(fn.params) > 1 else None
+        for hb, hblk in fn.cfg.blocks.items():
+            if hblk.get('term') in ('ForStmt', 'WhileStmt') and hblk.get('cond') is not None and fpar is not None and \
+                    any(isinstance(y, dict) and y.get('id') == fpar for y in walk(hblk['cond'])):
+                if any(wb != hb and fn.cfg.block_dominates(hb, wb) and fn.cfg.reaches(wb, hb) for wb, wj in writers):
+                    writers.append((hb, -1))
+        for i in ends:
+            blk = fn.cfg.blocks[i]
+            last_j = len(blk['stmts'])
+            if not any((wb == i and wj < last_j) or (wb != i and fn.cfg.block_dominates(wb, i)) for wb, wj in writers):
+                bad = blk['stmts'][-1]['loc'] if blk['stmts'] else fn.loc
+        out.append(Obl('C13.R7', fn.name, 'block written on every path', bad or fn.loc, 'discharged' if bad is None else 'finding',
+                       why='every exit is dominated by a use of the output block' if bad is None else
+                       'a path returns before anything is written to the block: the buffered base copies uninitialised memory out as the audio of this chip'))
+    if n < 3:
+        raise build.AnalysisBroken('C13.R7: only %d nativeGenerateN implementations found' % n)
+    return out
 
 
 
